@@ -3,43 +3,44 @@
 From V Require Import Common.Base C13.KwSpec C13.Token C13.LexSpec C13.LexProofs C13.Toks C13.TokenProofs C13.RenderLex
   C13.ParseSpec C13.ParseMono C13.ParseFuel C13.PrintParse C13.PrintParse2 C13.PrintNorm C13.PrintChain.
 
-Definition parse_text_fuel (m : nat) (s : list Z) : option expr :=
-  match lex s with Some ts => parse_fuel m ts | None => None end.
+Definition parse_text_fuel (m : nat) (ni : bool) (s : list Z) : option expr :=
+  match lex s with Some ts => parse_fuel m ni ts | None => None end.
 
-Lemma print_lex_all mw e : wf e -> lexok e ->
-  lex (print_expr mw e) = Some (toks (print_items mw LLowest e)).
+Lemma print_lex_all mw fi e : wf e -> lexok e ->
+  lex (print_expr mw fi e) = Some (toks (print_items mw fi LLowest e)).
 Proof.
-  intros Hwf Hlx. destruct (print_items_good mw e Hwf Hlx LLowest) as [G F].
+  intros Hwf Hlx. destruct (print_items_good mw e Hwf Hlx fi LLowest) as [G F].
   unfold print_expr. apply render_lex_all; [exact F | apply good_chain; exact G].
 Qed.
 
-Theorem print_parse_roundtrip_all mw e : wf e -> lexok e ->
-  exists n, forall m, (n <= m)%nat -> parse_text_fuel m (print_expr mw e) = Some (norm e).
+(* fi: the expression is printed with the forbidIn flag and read back with the grammar parameter [~In] *)
+Theorem print_parse_roundtrip_all mw fi e : wf e -> lexok e ->
+  exists n, forall m, (n <= m)%nat -> parse_text_fuel m fi (print_expr mw fi e) = Some (norm e).
 Proof.
-  intros Hwf Hlx. destruct (parse_print_items_all mw e Hwf) as [n Hn]. exists n. intros m Hm.
-  unfold parse_text_fuel. rewrite (print_lex_all mw e Hwf Hlx). apply Hn. exact Hm.
+  intros Hwf Hlx. destruct (parse_print_items_all mw fi e Hwf) as [n Hn]. exists n. intros m Hm.
+  unfold parse_text_fuel. rewrite (print_lex_all mw fi e Hwf Hlx). apply Hn. exact Hm.
 Qed.
 
-Theorem print_fixed_point_all mw e : wf e -> lexok e ->
-  exists n, forall m e', (n <= m)%nat -> parse_text_fuel m (print_expr mw e) = Some e' ->
-    forall mw', print_expr mw' e' = print_expr mw' e.
+Theorem print_fixed_point_all mw fi e : wf e -> lexok e ->
+  exists n, forall m e', (n <= m)%nat -> parse_text_fuel m fi (print_expr mw fi e) = Some e' ->
+    forall mw' fi', print_expr mw' fi' e' = print_expr mw' fi' e.
 Proof.
-  intros Hwf Hlx. destruct (print_parse_roundtrip_all mw e Hwf Hlx) as [n Hn]. exists n.
-  intros m e' Hm H mw'. rewrite (Hn m Hm) in H. inversion H; subst e'.
+  intros Hwf Hlx. destruct (print_parse_roundtrip_all mw fi e Hwf Hlx) as [n Hn]. exists n.
+  intros m e' Hm H mw' fi'. rewrite (Hn m Hm) in H. inversion H; subst e'.
   unfold print_expr. rewrite print_norm. reflexivity.
 Qed.
 
 (* with the concrete fuel of ParseSpec.parse (twice the number of tokens plus two) *)
-Theorem print_parse_roundtrip_concrete mw e : wf e -> lexok e -> parse_text (print_expr mw e) = Some (norm e).
+Theorem print_parse_roundtrip_concrete mw fi e : wf e -> lexok e -> parse_text fi (print_expr mw fi e) = Some (norm e).
 Proof.
-  intros Hwf Hlx. destruct (print_parse_roundtrip_all mw e Hwf Hlx) as [n Hn]. specialize (Hn n (Nat.le_refl _)).
-  unfold parse_text_fuel in Hn. unfold parse_text. destruct (lex (print_expr mw e)) as [ts|]; [|discriminate].
+  intros Hwf Hlx. destruct (print_parse_roundtrip_all mw fi e Hwf Hlx) as [n Hn]. specialize (Hn n (Nat.le_refl _)).
+  unfold parse_text_fuel in Hn. unfold parse_text. destruct (lex (print_expr mw fi e)) as [ts|]; [|discriminate].
   apply (parse_fuel_enough n). exact Hn.
 Qed.
 
-Theorem print_fixed_point_concrete mw e e' : wf e -> lexok e ->
-  parse_text (print_expr mw e) = Some e' -> forall mw', print_expr mw' e' = print_expr mw' e.
+Theorem print_fixed_point_concrete mw fi e e' : wf e -> lexok e ->
+  parse_text fi (print_expr mw fi e) = Some e' -> forall mw' fi', print_expr mw' fi' e' = print_expr mw' fi' e.
 Proof.
-  intros Hwf Hlx H mw'. rewrite (print_parse_roundtrip_concrete mw e Hwf Hlx) in H. inversion H; subst e'.
+  intros Hwf Hlx H mw' fi'. rewrite (print_parse_roundtrip_concrete mw fi e Hwf Hlx) in H. inversion H; subst e'.
   unfold print_expr. rewrite print_norm. reflexivity.
 Qed.
